@@ -246,6 +246,11 @@ COMMUTE_CORPUS = [
       (None, False, ("step", ("fill",), [("leaf", None, ("tin ", 6)), _l("tin 3"), _l("tin 12"), _l("tin 18")]))]],
     [[([("batch ", 2, " of dough")], True, ("step", ("knead",), [_l("flour", ("qty", 2, "kg", " ", ""))])),
       (None, False, ("step", ("shape",), [("leaf", ("prop", Fraction(1, 2), " of the"), ("batch ", 2, " of dough")), _l("batch 4 of dough"), _l("batch 6 of dough"), _l("batch 1 of dough")]))]],
+    # a proportion above one written as a whole number with a preposition stays a proportion (it is not a count that scales)
+    [[(None, False, _l("eggs", ("qty", 6, None, "", ""))), ([("egg wash",)], False, ("step", ("mix",), [("leaf", ("prop", Fraction(1, 3), " of the"), ("eggs",)), _l("milk", ("qty", 50, "ml", "", ""))])),
+      ([("dough",)], False, ("step", ("knead",), [("leaf", ("rem", "remaining", ""), ("eggs",)), _l("flour", ("qty", 500, "g", "", ""))])),
+      (None, False, ("step", ("brush",), [_l("dough"), ("leaf", ("prop", 2, " of the"), ("egg wash",))]))]],
+    [[([("stock",)], False, ("step", ("boil",), [_l("bones", ("qty", 1, "kg", " ", ""))])), (None, False, ("step", ("soup",), [("leaf", ("prop", 3, " of"), ("stock",)), _l("salt")]))]],
 ]
 
 
@@ -429,6 +434,7 @@ def oracle(run):
             run.violate(sig, detail, {"blocks": rsexp.blocks(rs), "k": repr(k), "k2": repr(k2)})
     from .. import gen_desc
     fixed = [(EDGE_DESC, Fraction(3, 2))] + [(d, k) for d in COMMUTE_CORPUS for k in (2, 3, Fraction(1, 2))]
+    fixed += [(d, k) for d in gen_desc.CORPUS for k in (2, Fraction(3, 2))]      # the corpus of minimised past failures
     for i in range(run.budget(150, 4000) + len(fixed)):
         d, k = fixed[i] if i < len(fixed) else (gen_desc.Gen(run.rng).desc(), run.rng.choice([2, 3, 10, Fraction(1, 2), Fraction(3, 2), Fraction(7, 3)]))
         if not desc_is_exact(d):
